@@ -199,6 +199,15 @@ def fault_op(rng: random.Random, snap: observe.Snap, ctx: Ctx):
         return "restart/" + k, op
     if kind == "cache":
         return "cache/clear", {"op": "cache_clear"}
+    if kind == "switch":
+        from .oracles import c18
+
+        if ctx.sut.restarts >= ctx.profile["max_restarts"]:
+            return None, None
+        if rng.random() < 0.75:
+            spec, touched = c18.perturb_device(rng, ctx.sut.world["device"])
+            return "switch/device", {"op": "switch_device", "device": spec, "strict": rng.random() < 0.6, "touched": touched}
+        return "switch/register", {"op": "switch_register", "register": c18.perturb_register(rng, ctx.sut.world["register"])}
     return None, None
 
 
